@@ -108,7 +108,7 @@ func init() {
 		spec := &mc.Spec{
 			Level: "exploration",
 			Rule: "family 0: every traced path syscall × pointer kind for each path argument (NULL, unmapped, kernel half, odd, short string, 4095/4096/4097/8192 bytes without NUL, string ending exactly at / crossing into a PROT_NONE page) × dirfd encoding × {soft-ban-all, allow-all} policy, one operation per run; " +
-				"family 1: syscall numbers unknown / negative / with the x32 bit / above 2^32, and unreadable or short open_how, every declared open_how size around the field boundaries; family 2: a fork+thread program where the main process, the child or the thread is SIGKILLed at the k-th tracer step (every Debug call index); family 3: symbolic-link shapes in the work directory (self loop, 2- and 3-cycles, a cycle entered through a directory link, chains of 39/40/41/64 links, '.'-link nesting, a 4000-byte target) × path syscalls (following, non-following, two-path, exec) × policy, the tracer running in a helper process with a 64 MiB stack cap so that its death is observed. " +
+				"family 1: syscall numbers unknown / negative / with the x32 bit / above 2^32, and unreadable or short open_how, every declared open_how size around the field boundaries, open flag words with both access-mode bits / all bits / garbage above bit 31; family 2: a fork+thread program where the main process, the child or the thread is SIGKILLed at the k-th tracer step (every Debug call index); family 3: symbolic-link shapes in the work directory (self loop, 2- and 3-cycles, a cycle entered through a directory link, chains of 39/40/41/64 links, '.'-link nesting, a 4000-byte target) × path syscalls (following, non-following, two-path, exec) × policy, the tracer running in a helper process with a 64 MiB stack cap so that its death is observed. " +
 				"Oracle: the result is a verdict about the program, never Runner Error, and the run returns within the horizon. distinct = (case, observed status)",
 			Bound:       map[string]any{"pointer_kinds": ptrs, "dirfds": dirfds, "syscalls": len(c15syscalls)},
 			Assumptions: []string{"kill instants are exhaustive at tracer-step granularity (each Debug call of the tracer loop), not at instruction granularity"},
@@ -163,6 +163,10 @@ func init() {
 					cases = append(cases, "X 437 -100 $0 @how0/0/0 "+sz, "X 437 -100 $0 @how0x241/0644/0 "+sz)
 				}
 				cases = append(cases, "X 437 -100 $0 @howshort 4", "X 437 -100 $0 @howshort 0")
+				// open flag words: both access-mode bits set (legal: descriptor for ioctl only), every bit set, garbage above bit 31
+				for _, fl := range []string{"3", "0x80003", "0x200003", "0x7fffffff", "0xffffffff", "0xdeadbeef00000003", "-1"} {
+					cases = append(cases, "X 2 $0 "+fl+" 0", "X 257 -100 $0 "+fl+" 0", "X 437 -100 $0 @how"+fl+"/0/0 24")
+				}
 				line := cases[x.Choose(len(cases), "case")]
 				allow := x.Bool("allow-all")
 				x.Note("case", line)
